@@ -198,7 +198,24 @@ fn ast_type(t: &syn::Type) -> J {
         syn::Type::Reference(r) => a("ref", vec![ast_type(&r.elem)]),
         syn::Type::Array(x) => a("array", vec![ast_type(&x.elem), ast_expr(&x.len)]),
         syn::Type::Slice(x) => a("slice", vec![ast_type(&x.elem)]),
-        syn::Type::Path(p) if p.qself.is_none() => a("tpath", vec![ast_path(&p.path)]),
+        syn::Type::Path(p) if p.qself.is_none() => {
+            let last = p.path.segments.last().unwrap();
+            match &last.arguments {
+                syn::PathArguments::AngleBracketed(ab) => {
+                    let args: Vec<J> = ab
+                        .args
+                        .iter()
+                        .map(|g| match g {
+                            syn::GenericArgument::Type(t) => ast_type(t),
+                            g => a("unsupported", vec![jn(g)]),
+                        })
+                        .collect();
+                    a("tapp", vec![ast_path(&p.path), J::A(args)])
+                }
+                _ => a("tpath", vec![ast_path(&p.path)]),
+            }
+        }
+        syn::Type::ImplTrait(i) => a("timpl", vec![jn(&i.bounds)]),
         syn::Type::Tuple(t) if t.elems.is_empty() => a("tunit", vec![]),
         t => a("unsupported", vec![jn(t)]),
     }
@@ -250,6 +267,10 @@ fn ast_macro(m: &syn::Macro) -> J {
     let name = m.path.segments.last().map(|x| x.ident.to_string()).unwrap_or_default();
     match name.as_str() {
         "panic" | "unreachable" => a("panic", vec![s(&name)]),
+        "vec" => match m.parse_body_with(syn::punctuated::Punctuated::<syn::Expr, syn::Token![,]>::parse_terminated) {
+            Ok(es) => a("vec", vec![J::A(es.iter().map(ast_expr).collect())]),
+            Err(_) => a("unsupported", vec![jn(m)]),
+        },
         "for_range" => match m.parse_body::<ForRange>() {
             Ok(f) => a(
                 "for_range",
@@ -322,6 +343,24 @@ fn ast_expr(e: &syn::Expr) -> J {
         E::Continue(c) if c.label.is_none() => a("continue", vec![]),
         E::Break(b) if b.label.is_none() && b.expr.is_none() => a("break", vec![]),
         E::Tuple(t) if t.elems.is_empty() => a("unit", vec![]),
+        E::Field(f) => match &f.member {
+            syn::Member::Named(n) => a("field", vec![ast_expr(&f.base), s(n)]),
+            m => a("unsupported", vec![jn(m)]),
+        },
+        E::Struct(st) if st.qself.is_none() => a(
+            "struct",
+            vec![
+                ast_path(&st.path),
+                J::A(st.fields
+                    .iter()
+                    .map(|f| match &f.member {
+                        syn::Member::Named(n) => J::A(vec![s(n), ast_expr(&f.expr)]),
+                        m => a("unsupported", vec![jn(m)]),
+                    })
+                    .collect()),
+                st.rest.as_ref().map(|r| ast_expr(r)).unwrap_or(J::Null),
+            ],
+        ),
         E::Macro(m) => ast_macro(&m.mac),
         e => a("unsupported", vec![jn(e)]),
     }
@@ -357,8 +396,49 @@ fn mode_ast(path: &str, out: &mut String) {
     };
     let mut enums = vec![];
     let mut fns = vec![];
+    let mut structs = vec![];
+    let mut methods = vec![];
     for it in &file.items {
         match it {
+            syn::Item::Struct(st) => {
+                let fields: Vec<J> = match &st.fields {
+                    syn::Fields::Named(n) => n.named.iter().map(|f| J::A(vec![s(f.ident.as_ref().unwrap()), ast_type(&f.ty)])).collect(),
+                    f => vec![a("unsupported", vec![jn(f)])],
+                };
+                structs.push(J::O(vec![("name", s(&st.ident)), ("generics", jn(&st.generics)), ("fields", J::A(fields))]));
+            }
+            syn::Item::Impl(im) if im.trait_.is_none() => {
+                let owner = match &*im.self_ty {
+                    syn::Type::Path(p) => p.path.segments.last().map(|x| x.ident.to_string()).unwrap_or_default(),
+                    t => norm(t),
+                };
+                for ii in &im.items {
+                    if let syn::ImplItem::Fn(f) = ii {
+                        let params: Vec<J> = f
+                            .sig
+                            .inputs
+                            .iter()
+                            .map(|x| match x {
+                                syn::FnArg::Receiver(r) => J::A(vec![a("self", vec![J::B(r.reference.is_some()), J::B(r.mutability.is_some())]), a("tself", vec![])]),
+                                syn::FnArg::Typed(t) => J::A(vec![ast_pat(&t.pat), ast_type(&t.ty)]),
+                            })
+                            .collect();
+                        let ret = match &f.sig.output {
+                            syn::ReturnType::Default => a("tunit", vec![]),
+                            syn::ReturnType::Type(_, t) => ast_type(t),
+                        };
+                        methods.push(J::O(vec![
+                            ("owner", s(&owner)),
+                            ("name", s(&f.sig.ident)),
+                            ("attrs", J::A(f.attrs.iter().filter(|x| !x.path().is_ident("doc")).map(|x| jn(&x.meta)).collect())),
+                            ("generics", jn(&f.sig.generics)),
+                            ("params", J::A(params)),
+                            ("ret", ret),
+                            ("body", ast_block(&f.block)),
+                        ]));
+                    }
+                }
+            }
             syn::Item::Enum(e) => {
                 let vars = e
                     .variants
@@ -410,6 +490,6 @@ fn mode_ast(path: &str, out: &mut String) {
             _ => {}
         }
     }
-    J::O(vec![("enums", J::A(enums)), ("fns", J::A(fns))]).write(out);
+    J::O(vec![("enums", J::A(enums)), ("fns", J::A(fns)), ("structs", J::A(structs)), ("methods", J::A(methods))]).write(out);
     out.push('\n');
 }
